@@ -334,3 +334,147 @@ pub mod c11_e2e {
 fn verif_c11_e2e() {
     crate::ipa_verif::proto::run_suite("c11_e2e", c11_e2e::generate, c11_e2e::exec);
 }
+
+// ---------------------------------------------------------------------------------------------
+// C01 on the production entry point: the real `Query::execute` of query/runner/hybrid.rs (HPKE
+// decryption, reshard by unique tag, duplicate check, `hybrid_protocol::<_, BA8, BA3, BA32, 3, 256>`
+// with `PaddingParameters::default()`) under `TestWorld<WithShards<N>>` with malicious contexts.
+//
+//   c01.query <shards> <assign> <records>
+//        assign  : comma list, index of the shard that RECEIVES the i-th encrypted report
+//        records : as in c01.e2e (`i:<mk>:<bk>` | `c:<mk>:<v>`)
+//        -> reconstructed histogram of the leader shard `h0,…,h255`
+//         | `err:<Kind>` (first error of any helper/shard, kind only) | `timeout`
+//         | `follower-nonempty:<shard>` | `length-mismatch`
+// Every shard receives >= 30 match keys so that no shard is ever left without rows or pairs
+// (known finding F8).
+// ---------------------------------------------------------------------------------------------
+pub mod c01_query {
+    use std::sync::Arc;
+
+    use rand::{SeedableRng, rngs::StdRng};
+
+    use super::super::hybrid::Query as HybridQuery;
+    use crate::{
+        error::Error,
+        ff::{U128Conversions, boolean_array::{BA3, BA8, BA32}},
+        helpers::{BodyStream, query::{HybridQueryParams, QuerySize}},
+        hpke::{KeyPair, KeyRegistry},
+        ipa_verif::{c01::{gen_records, parse_records, rec_str}, proto::*},
+        report::hybrid::{DEFAULT_KEY_ID, HybridReport},
+        secret_sharing::{IntoShares, replicated::semi_honest::AdditiveShare as Replicated},
+        test_fixture::{Reconstruct, TestWorld, TestWorldConfig, WithShards, flatten3v},
+    };
+
+    fn err_kind(e: &Error) -> String {
+        let d = format!("{e:?}");
+        let k: String = d.chars().take_while(|c| c.is_alphanumeric() || *c == '_').collect();
+        format!("err:{k}")
+    }
+
+    fn seed_of(req: &str) -> u64 {
+        req.bytes().fold(0xcbf2_9ce4_8422_2325u64, |h, b| (h ^ u64::from(b)).wrapping_mul(0x0000_0100_0000_01B3))
+    }
+
+    async fn run_n<const N: usize>(seed: u64, assign: Vec<usize>, records: Vec<crate::test_fixture::hybrid::TestHybridRecord>) -> String {
+        let mut rng = StdRng::seed_from_u64(seed);
+        let key_registry = Arc::new(KeyRegistry::<KeyPair>::random(1, &mut rng));
+        let shares: [Vec<HybridReport<BA8, BA3>>; 3] = records.into_iter().share_with(&mut rng);
+        // buffers[helper][shard]: length-delimited encrypted reports
+        let mut buffers: [Vec<Vec<u8>>; 3] = std::array::from_fn(|_| vec![Vec::new(); N]);
+        let mut sizes = vec![0usize; N];
+        for (h, hs) in shares.into_iter().enumerate() {
+            for (i, share) in hs.into_iter().enumerate() {
+                let s = assign[i] % N;
+                share.delimited_encrypt_to(DEFAULT_KEY_ID, key_registry.as_ref(), &mut rng, &mut buffers[h][s]).unwrap();
+                if h == 0 {
+                    sizes[s] += 1;
+                }
+            }
+        }
+        let Ok(query_sizes) = sizes.iter().map(|s| QuerySize::try_from(*s)).collect::<Result<Vec<_>, _>>() else {
+            return "err:QuerySize".to_string();
+        };
+        let mut config = TestWorldConfig::default().with_timeout_secs(600);
+        config.seed = seed;
+        let world = TestWorld::<WithShards<N>>::with_shards(config);
+        let contexts = world.malicious_contexts();
+        #[allow(clippy::large_futures)]
+        let results: Vec<Result<Vec<Replicated<BA32>>, Error>> = flatten3v(buffers.into_iter().zip(contexts).map(|(helper_buffers, helper_ctxs)| {
+            helper_buffers.into_iter().zip(helper_ctxs).zip(query_sizes.clone()).map(|((buffer, ctx), query_size)| {
+                let params = HybridQueryParams { with_dp: 0, ..Default::default() };
+                HybridQuery::<_, BA32, KeyRegistry<KeyPair>>::new(params, Arc::clone(&key_registry))
+                    .execute(ctx, query_size, BodyStream::from(buffer))
+            })
+        }))
+        .await;
+        // flatten3v order: shard-major (shard 0: helpers 0,1,2; shard 1: …)
+        if results.len() != 3 * N {
+            return "length-mismatch".to_string();
+        }
+        if let Some(e) = results.iter().find_map(|r| r.as_ref().err()) {
+            return err_kind(e);
+        }
+        let get = |h: usize, s: usize| results[s * 3 + h].as_ref().unwrap().clone();
+        for s in 1..N {
+            for h in 0..3 {
+                if !get(h, s).is_empty() {
+                    return format!("follower-nonempty:{s}");
+                }
+            }
+        }
+        let hist: Vec<BA32> = [get(0, 0), get(1, 0), get(2, 0)].reconstruct();
+        nat_list(&hist.iter().map(|x| x.as_u128()).collect::<Vec<_>>())
+    }
+
+    pub fn exec(req: &str) -> String {
+        let t: Vec<&str> = req.split(' ').collect();
+        assert_eq!(t[0], "c01.query");
+        let n: usize = t[1].parse().unwrap();
+        let assign: Vec<usize> = parse_nat_list(t[2]);
+        let records = parse_records(t[3]);
+        assert_eq!(assign.len(), records.len(), "harness: one shard index per record");
+        let seed = seed_of(req);
+        block_on_timeout(900, async move {
+            match n {
+                1 => run_n::<1>(seed, assign, records).await,
+                2 => run_n::<2>(seed, assign, records).await,
+                3 => run_n::<3>(seed, assign, records).await,
+                _ => panic!("harness: unsupported shard count {n}"),
+            }
+        })
+        .unwrap_or_else(|e| e)
+    }
+
+    pub fn generate(rng: &mut Rng, thorough: bool) -> Vec<String> {
+        let mut v = Vec::new();
+        let mut case = |rng: &mut Rng, shards: usize, n_keys: usize, style: u64| {
+            let recs = gen_records(rng, n_keys, 256, 8);
+            let a: Vec<usize> = (0..recs.len())
+                .map(|i| match style {
+                    0 => i % shards,
+                    1 => rng.usize_below(shards),
+                    _ => shards - 1 - (i % shards),
+                })
+                .collect();
+            format!("c01.query {shards} {} {}", nat_list(&a), rec_str(&recs))
+        };
+        // quick: one single-shard and one two-shard query (>= 30 match keys per shard)
+        v.push(case(rng, 1, 32, 0));
+        v.push(case(rng, 2, 64, 0));
+        if thorough {
+            for i in 0..6u64 {
+                let shards = 1 + (i as usize % 2);
+                let n_keys = 30 * shards + rng.usize_below(40);
+                v.push(case(rng, shards, n_keys, 1 + i % 2));
+            }
+            v.push(case(rng, 3, 100, 1));
+        }
+        v
+    }
+}
+
+#[test]
+fn verif_c01_query() {
+    crate::ipa_verif::proto::run_suite("c01_query", c01_query::generate, c01_query::exec);
+}
